@@ -75,4 +75,42 @@ theorem C19_code_overflow_point (s : GameState) (pp : PlayPhase) (hph : s.phase 
     simp [takeActionPanics, passPanics, hph, usizeAddPanics, hside, hmax]
   rw [this]; rfl
 
+/-- **C19 for the code as it is now, every reachable state** (the initial state, every state a diagram parses to,
+and everything reached from those through the rule-only lists — setup included): no listed query of the
+regenerated code panics, nor do `take_action` and the capture preview for any offered action, nor — in play —
+`current_step` and `piece_board_for_step i` for `i ≤ step`; each returns the value of the total model.  The only
+hypothesis is the machine-integer bound of finding F4. -/
+theorem C19_code_no_panic (s : GameState) (hr : NoPanic.Reach s) (hm : s.moveNo < usizeMax) :
+    GameState_valid_actions s = .ok s.validActions ∧
+    GameState_valid_actions_no_rep s = .ok s.validActionsNoRep ∧
+    GameState_is_terminal s = .ok s.isTerminal ∧
+    GameState_has_move s s.board = .ok (s.hasMove s.board) ∧
+    GameState_can_pass s false = .ok (s.canPass false) ∧
+    GameState_can_pass s true = .ok (s.canPass true) ∧
+    GameState_transposition_hash s = .ok s.transpositionHash ∧
+    (∀ a ∈ s.validActionsNoRep,
+      GameState_take_action s a = .ok (s.takeAction a) ∧
+      GameState_trapped_animal_for_action s a = .ok (s.trappedAnimalForAction a)) ∧
+    (∀ pp, s.phase = .play pp →
+      GameState_current_step s = .ok s.step ∧
+      ∀ i, i ≤ pp.step → GameState_piece_board_for_step s i = .ok (s.pieceBoardForStep i)) := by
+  obtain ⟨⟨h1, h2, h3, h4, h5, h6, h7, _⟩, hact, _, hplay⟩ := C19_no_panic s hr hm
+  refine ⟨?_, ?_, ?_, ?_, ?_, ?_, ?_, ?_, ?_⟩
+  · rw [bridge_GameState_valid_actions, RsAgree.valid_actions_eq]; exact C19_guard_ok h1
+  · rw [bridge_GameState_valid_actions_no_rep, RsAgree.valid_actions_no_rep_eq]; exact C19_guard_ok h2
+  · rw [bridge_GameState_is_terminal, RsAgree.is_terminal_eq]; exact C19_guard_ok h3
+  · rw [bridge_GameState_has_move, RsAgree.has_move_eq]; exact C19_guard_ok h4
+  · rw [bridge_GameState_can_pass, RsAgree.can_pass_eq]; exact C19_guard_ok h5
+  · rw [bridge_GameState_can_pass, RsAgree.can_pass_eq]; exact C19_guard_ok h6
+  · rw [bridge_GameState_transposition_hash, RsAgree.transposition_hash_eq]; exact C19_guard_ok h7
+  · intro a ha
+    obtain ⟨hp, ht, _⟩ := hact a ha
+    exact ⟨by rw [bridge_GameState_take_action, RsAgree.take_action_eq]; exact C19_guard_ok ht,
+      by rw [bridge_GameState_trapped_animal_for_action, RsAgree.trapped_animal_for_action_eq]; exact C19_guard_ok hp⟩
+  · intro pp hph
+    obtain ⟨hc, hpbs⟩ := hplay pp hph
+    refine ⟨by rw [bridge_GameState_current_step, RsAgree.current_step]; exact C19_guard_ok hc, ?_⟩
+    intro i hi
+    rw [bridge_GameState_piece_board_for_step, RsAgree.piece_board_for_step_eq]; exact C19_guard_ok (hpbs i hi)
+
 end Arimaa
